@@ -15,8 +15,9 @@ GAP = 'local claim: the mechanism functions named in the property anchors carry 
 
 CLAIMED = {
     'C01': dict(assumptions=[
-        'partial claim: the listed functions are total (no overflow, unwrap/expect on None, out-of-bounds index, unreachable!) on hostile trace/CID data and allocate within STREAM_MAX_SIZE generations; NOT "the interpreter is total": air_parser::parse, to_human_readable_data, Beautifier, rkyv check_bytes, recursion depth and allocation inside dependencies are not covered',
-        'typestate preconditions of ParBuilder/StateInserter/SubTraceLoreCtorQueue (call order driven by FoldFSM/ParFSM/the executor) are assumed',
+        'partial claim: the listed functions (trace handler, mergers, FSMs, CID layer, call/canon/ap handlers, the control-flow and fold executors) are total (no overflow, unwrap/expect on None, out-of-bounds index, unreachable!) on hostile trace/CID data and allocate within STREAM_MAX_SIZE generations; NOT "the interpreter is total": air_parser::parse, to_human_readable_data, Beautifier, rkyv check_bytes, the lambda applier over JSON, recursion depth and allocation inside dependencies are not covered',
+        'the typestate preconditions of ParBuilder/StateInserter/SubTraceLoreCtorQueue are proved at their call sites in ParFSM/FoldFSM; what remains assumed is that the result trace only grows between FSM calls',
+        'RawValue::get_value panics on a stored text that is not JSON: recorded known finding F4 (native job C01.raw_value)',
     ]),
     'C02': dict(assumptions=[
         'internal failure of the farewell step itself (stream compactification or signing error inside populate_outcome_from_contexts) returns that error\'s code with EMPTY data (F11, DESIGN.md section 5): every C02 contract is stated "unless internal_failure_outcome"',
@@ -29,12 +30,12 @@ CLAIMED = {
     'C07': dict(assumptions=[GAP]),
     'C08': dict(assumptions=[GAP, 'par/fold re-positioning over whole traces is not covered']),
     'C09': dict(assumptions=[GAP, 'whole-trace multiset preservation over par/fold repositioning is not covered; the Left-end restore of a par is deliberately unconstrained (F10)']),
-    'C10': dict(assumptions=[GAP, 'the order in which the executor drives FoldFSM/ParFSM (ghost n0 <= n1 <= n2, monotone positions) is assumed']),
+    'C10': dict(assumptions=[GAP, 'that the result trace only grows between FSM calls (ghost n0 <= n1 <= n2, monotone positions) is assumed; the fold call order is no longer assumed (F13 repaired: out-of-order calls are errors)']),
     'C11': dict(assumptions=[GAP, 'thin: canon join laws only; nothing history-level']),
     'C12': dict(assumptions=[GAP, 'recursive streams and the call sites of add_value are not covered',
-                             'iterator-based code (slice_iter, iter, retain, update_generations) is outside Verus: covered by the bounded native job C12.compactify on the real Stream + TraceHandler']),
-    'C13': dict(assumptions=[GAP, 'that each replayed/performed append calls add_value exactly once (handlers) and the fold/next executor are not covered',
-                             'RecursiveStreamCursor is covered only by the bounded native job']),
+                             'iterator-based code (slice_iter, iter, retain, update_generations) is outside Verus: its assumed specs are tied to the real code only by the bounded native job C12.compactify on the real Stream + TraceHandler (a regression of F14b in slice_iter is caught there, not by Verus)']),
+    'C13': dict(assumptions=[GAP, 'every caller of Stream::add_value (unit appends) and the fold/next executors with RecursiveStreamCursor (unit fold_exec, lemma cursor_visits_each_value_once) are under contract; the fold body is an opaque child that may append to the open generation only',
+                             'ValuesMatrix::slice_iter (iterator chain) is a stub with the spec non_empty(view.skip(cursor)); the bounded native jobs C12.compactify / C13.cursor tie it to the real code']),
     'C14': dict(assumptions=[GAP, 'Ed25519, borsh and CidInfo::verify internals are trusted; the attack catalogue over histories is not covered']),
     'C15': dict(assumptions=[GAP, 'to_count_map (HashMap entry API) is outside Verus: assumed to return the multiset of its argument, checked by the bounded native job C15.merge, which also covers DataVerifier::merge (swap logic, Entry API) that Verus cannot take']),
     'C18': dict(assumptions=[GAP, 'behaviour inside par/fold/new is not covered']),
@@ -42,9 +43,10 @@ CLAIMED = {
     'C21': dict(assumptions=['Ord for semver::Version is axiomatised as a strict total order; conformance of that axiom is a native check of a trusted dependency']),
     'C22': dict(assumptions=['"otherwise behaves exactly as an unlimited run" is covered only as: the flags are the only thing the check changes in execute_air_impl',
                              'the per-call-result check in make_exec_ctx (closure over HashMap::values) is outside the lifted text']),
-    'C24': dict(assumptions=['JSON arrays/objects are opaque payloads with uninterpreted views (Rc<[JValue]>::get, BTreeMap::get external); canon stream / map first-index selection is not covered']),
-    'C25': dict(assumptions=['second sentence only (verification accepts exactly matching pairs); cid parsing, Multihash and the digest functions are external with uninterpreted results; first sentence (canonical serialisation) not claimed']),
-    'C27': dict(assumptions=['multiformat layer only; unsigned_varint encode/decode external with a round-trip spec; rkyv + check_bytes and rmp_serde are trusted']),
+    'C24': dict(assumptions=['JSON arrays/objects are opaque payloads with uninterpreted views (Rc<[JValue]>::get, BTreeMap::get external); canon-map key conversion (StreamMapKey::from_value*, try_scalar_ref_as_stream_map_key) is covered, canon stream first-index selection (iterator nth) is not']),
+    'C25': dict(assumptions=['Verus: second sentence (verification accepts exactly matching pairs); cid parsing, Multihash and the digest functions are external with uninterpreted results',
+                             'first sentence (the id does not depend on how the value was built) only by the bounded native job C25.canonical with real hashes on boundary JSON values']),
+    'C27': dict(assumptions=['multiformat layer only; unsigned_varint encode/decode external with a round-trip spec and a canonical-length spec (F15 repaired: over-long / overflowing tags are rejected); rkyv + check_bytes and rmp_serde are trusted']),
 }
 for _k, _v in CLAIMED.items():
     _v.setdefault('level', 'proof')
